@@ -623,6 +623,31 @@ Fixpoint demanded (B : table) (ops : list op) (tabs : list table) : list (N * pa
       end
   | _, _ => ([], [])
   end.
+(* Conversely, a proposal is carried out only by the slot's uniquely named proposal job: every
+   observed Propose invocation must be accounted for by a firing of 'Beacon block proposal for slot s'
+   that the observed table held at that moment, or by a firing of the listed early-proposal job of s
+   while the slot's proposal job was still listed (bringing it forward), with the duty that job
+   carried; each job accounts for one invocation.  So an early proposal after the slot's job already
+   ran, or after a refresh withdrew it, is a violation in every history family (not only, through
+   NoDup, in the disciplined ones).  The head condition is left out here (permissive). *)
+Fixpoint solicited (B : table) (ops : list op) (tabs : list table) : list (N * payload) :=
+  match ops, tabs with
+  | o :: ops', A :: tabs' =>
+      let B' := match o with Start => [] | _ => B end in
+      let dp := solicited A ops' tabs' in
+      match o with
+      | Fire (JProp s) _ => match tget B' (JProp s) with Some j => (s, j_pay j) :: dp | None => dp end
+      | Fire (JEarly s) _ =>
+          if texists B' (JEarly s)
+          then match tget B' (JProp s) with Some j => (s, j_pay j) :: dp | None => dp end
+          else dp
+      | _ => dp
+      end
+  | _, _ => []
+  end.
+Definition props_solicited (ops : list op) (snaps : list (option table)) (prop_log : list (N * payload)) : bool :=
+  all_in prop_log (solicited [] ops (expand [] snaps)).
+
 Definition runs_ok (ops : list op) (snaps : list (option table)) (att_log prop_log : list (N * payload)) : bool :=
   let '(da, dp) := demanded [] ops (expand [] snaps) in
   all_in da att_log && all_in dp prop_log.
@@ -633,8 +658,8 @@ Definition P_b (cs : case) : bool :=
   match c_body cs with
   | BTime p probes slots epochs => P_time p probes slots epochs
   | BSecs _ => true
-  | BHist c init ops snaps al pl _ wf => P_hist c init ops snaps al pl wf && runs_ok ops snaps al pl
-  | BHistD c init dops snaps clocks setups al pl _ => P_hist_d c init dops snaps clocks setups && runs_ok (map fst dops) snaps al pl
+  | BHist c init ops snaps al pl _ wf => P_hist c init ops snaps al pl wf && runs_ok ops snaps al pl && props_solicited ops snaps pl
+  | BHistD c init dops snaps clocks setups al pl _ => P_hist_d c init dops snaps clocks setups && runs_ok (map fst dops) snaps al pl && props_solicited (map fst dops) snaps pl
   | BMerge ds (Some out) => P_merge ds out
   | BMerge ds None => false
   end.
